@@ -69,7 +69,7 @@ def _nt_case(stage, ng, keys):
             'keys': keys, 'out': 'ok'}
 
 
-def _drive_nt(a, with_keys):
+def _drive_nt(a, with_keys, detour_rng=None):
     """nonterminal_graph observed after EVERY step of the construction history of the grammar
     (a query between mutations must see the mutation), then keys of sum_products at the end."""
     import fggs
@@ -84,7 +84,7 @@ def _drive_nt(a, with_keys):
             c['out'] = 'raise:' + type(e).__name__
             cases.append(c)
     try:
-        AG.build_incremental(a, on_step)
+        AG.build_incremental(a, on_step, detour_rng=detour_rng)
     except Exception as e:  # noqa
         raise MachineryFailure(f'incremental construction failed: {e!r}')
     if with_keys:
@@ -134,7 +134,7 @@ def _cases(tier, seed, work, o: Outcome):
     for i in range(nnt):
         a = AG.gen_ag(rng, n_nts=(1, 4), recursion='any', max_edges=3, max_nodes=2, p_norules=0.3,
                       weights='small', allow_unused_terms=True)
-        cases.extend(_drive_nt(a, with_keys=(i % 2 == 0)))
+        cases.extend(_drive_nt(a, with_keys=(i % 2 == 0), detour_rng=(rng_for(seed, f'c19detour{i}') if i % 3 == 0 else None)))
     return cases
 
 
